@@ -5,10 +5,8 @@ open SophiaProofs.C08
 #print axioms rio_lang_sub_validator
 #print axioms jsonld_bnode_sub_validator
 #print axioms base_unwrap_safe
-#print axioms oxiri_abs_sub_validator_partial
-#print axioms oxiri_ref_sub_validator_partial
-#print axioms oxiri_abs_sub_validator_refuted
-#print axioms oxiri_ref_sub_validator_refuted
+#print axioms oxiri_abs_sub_validator
+#print axioms oxiri_ref_sub_validator
 #print axioms gtrig_iri_sub_validator_refuted
 #print axioms ttl_pname_sub_validator_refuted
 #print axioms xml_qname_sub_validator_refuted
